@@ -119,7 +119,8 @@ static bool writeTable(const Toks& t0, std::string& lens)
 	// `tabws/tabrts <sep> <dec> …`: setSeparator / setDecimal before columns()
 	Toks t = t0;
 	int sep = -1, dec = -1;
-	if (t.size() >= 3 && (t[0] == "tabws" || t[0] == "tabrts")) {
+	if (t.size() >= 4 && t[0] == "tabrtt") t.erase(t.begin() + 1);   // the readAs string: used by the reader only
+	if (t.size() >= 3 && (t[0] == "tabws" || t[0] == "tabrts" || t[0] == "tabrtt")) {
 		sep = (int)num(t[1]);
 		dec = (int)num(t[2]);
 		t.erase(t.begin() + 1, t.begin() + 3);
@@ -159,9 +160,10 @@ static bool writeTable(const Toks& t0, std::string& lens)
 	return ok;
 }
 
-static std::string readTable()
+static std::string readTable(const char* types = 0)
 {
 	TabularDataFile f(S(g_csv));
+	if (types) f.readAs(String(types));
 	Array<Array<Var> > d = f.data();
 	const Array<String>& cols = f.columns();
 	std::string s = "cols=";
@@ -173,6 +175,7 @@ static std::string readTable()
 			if (j) s += ",";
 			const Var& v = d[i][j];
 			if (v.is(Var::STRING)) s += "s" + hexs(v.toString());
+			else if (v.is(Var::INT)) s += "i" + str((int)v);
 			else if (v.is(Var::NUMBER)) {
 				char b[64];
 				snprintf(b, sizeof b, "%.15g", (double)v);
@@ -282,6 +285,19 @@ static std::string step(const Toks& t)
 		std::string lens;
 		if (!writeTable(t, lens)) return "bad-op";
 		return readTable();
+	}
+	if (op == "tabrtt" && t.size() >= 5) {
+		std::string ty = t[1] == "-" ? "" : t[1];
+		if (ty.find('h') != std::string::npos) return "bad-op";
+		std::string lens;
+		if (!writeTable(t, lens)) return "bad-op";
+		return readTable(ty.c_str());
+	}
+	if (op == "tabreadt" && t.size() == 3) {
+		std::string ty = t[1] == "-" ? "" : t[1];
+		if (ty.find('h') != std::string::npos) return "bad-op";
+		putFile(g_csv, unhex(t[2]));
+		return readTable(ty.c_str());
 	}
 	if (op == "tabread" && t.size() == 2) {
 		putFile(g_csv, unhex(t[1]));
